@@ -171,8 +171,8 @@ def contains(ctx, kind):
 
 
 def cases(tier):
-    K = 3 if tier == "quick" else 12
-    nmax = 3 if tier == "quick" else 12
+    K = 3 if tier == "quick" else 6
+    nmax = 3 if tier == "quick" else 6
     out = []
     for kind, units in (("date", UNITS_D), ("utc", UNITS_DT)):
         for unit in units:
